@@ -5926,7 +5926,8 @@ class CodegenCtx:
             transition_body.add("// terminating state")
         target_overriden = False
         needs_early_advance = any(x.may_return_early() for x in transition.actions)
-        immediate_done = transition.target in self.dfa.accepting_states and not ProgramData.do(ProgramFlag.STRICT_DONE_TOKEN_GENERATION) and all(x.error_handling for x in transition.target.transitions)
+        # (strict done token generation only postpones DONE to the next feed call; there is no next call after end)
+        immediate_done = transition.target in self.dfa.accepting_states and (from_end or not ProgramData.do(ProgramFlag.STRICT_DONE_TOKEN_GENERATION)) and all(x.error_handling for x in transition.target.transitions)
         if needs_early_advance and not from_end and not transition.is_fallthrough and not immediate_done:
             if ProgramData.do(ProgramFlag.INDIRECT_START_PTR):
                 transition_body.add(f"++(*start);");
